@@ -56,7 +56,7 @@ type idxScen struct {
 	lastKey interface{} // a key value that a recent write freed or tried to take
 }
 
-var idxScenKinds = []string{"partial", "partial", "shift", "shift", "dupbuild", "bulk", "bulk", "multikey", "multikey", "wide", "wide", "numkeys", "numkeys"}
+var idxScenKinds = []string{"partial", "partial", "shift", "shift", "dupbuild", "bulk", "bulk", "multikey", "multikey", "wide", "wide", "numkeys", "numkeys", "badfilter", "badfilter", "iddrop"}
 
 func (g *apiGen) initIdx() {
 	r := g.r
@@ -140,6 +140,14 @@ func (g *apiGen) initIdx() {
 		if r.P(15) {
 			s.pkind, s.pfield = "exists", s.cols[s.arrCol]
 		}
+	case "badfilter":
+		s.key = []string{"a", "b"}[r.N(2)]
+		s.unique = r.P(25)
+		s.pfield = "x" // the condition that is evaluated first
+		s.pkind = []string{"and-fields", "and-fields", "and-op", "same-field", "or"}[r.N(5)]
+		s.named = r.P(25)
+	case "iddrop":
+		s.key = []string{"a", "b"}[r.N(2)]
 	case "numkeys":
 		s.cluster = [2]int{r.N(len(idxNumClusters)), r.N(len(idxNumClusters))}
 		s.key = []string{"a", "b", "x"}[r.N(3)]
@@ -172,7 +180,17 @@ func (g *apiGen) idxNum(n int) interface{} {
 
 func (g *apiGen) idxPartial() (bson.D, bool) {
 	s := g.idx
+	bad := []string{"$exits", "$foo", "$regexx", "$gtt"}[g.idx.phase%4]
 	switch s.pkind {
+	// badfilter: the unknown operator is evaluated only for documents that pass x > 0 (or fail x ≤ 0)
+	case "and-fields":
+		return bson.D{{Key: "x", Value: bson.D{{Key: "$gt", Value: int32(0)}}}, {Key: "c", Value: bson.D{{Key: bad, Value: true}}}}, true
+	case "and-op":
+		return bson.D{{Key: "$and", Value: bson.A{bson.D{{Key: "x", Value: bson.D{{Key: "$gt", Value: int32(0)}}}}, bson.D{{Key: "c", Value: bson.D{{Key: bad, Value: int32(1)}}}}}}}, true
+	case "same-field":
+		return bson.D{{Key: "x", Value: bson.D{{Key: "$gt", Value: int32(0)}, {Key: bad, Value: int32(1)}}}}, true
+	case "or":
+		return bson.D{{Key: "$or", Value: bson.A{bson.D{{Key: "x", Value: bson.D{{Key: "$lte", Value: int32(0)}}}}, bson.D{{Key: "c", Value: bson.D{{Key: bad, Value: int32(1)}}}}}}}, true
 	case "gt":
 		return bson.D{{Key: s.pfield, Value: bson.D{{Key: "$gt", Value: g.idxNum(0)}}}}, true
 	case "exists":
@@ -238,7 +256,9 @@ func (g *apiGen) idxUnder(d bsonkit.Doc) bool {
 // idxFreshID: a small integer `_id` that no stored document has (sometimes one that is taken).
 func (g *apiGen) idxFreshID(docs bsonkit.List) interface{} {
 	r := g.r
-	if len(docs) > 0 && r.P(6) {
+	// (not in kind badfilter: a document that is a duplicate under _id_ AND raises an error under the
+	// bad filter fails with whichever index Go's map iteration visits first)
+	if len(docs) > 0 && g.idx.kind != "badfilter" && r.P(6) {
 		return idxCopy(bsonkit.Get(docs[r.N(len(docs))], "_id"))
 	}
 	for n := 1; n < 40; n++ {
@@ -442,6 +462,10 @@ func (g *apiGen) idxNext(c *apiCall) *apiCall {
 		return g.idxWideNext(c, docs)
 	case "numkeys":
 		return g.idxNumKeysNext(c, docs)
+	case "badfilter":
+		return g.idxBadFilterNext(c, docs)
+	case "iddrop":
+		return g.idxIDDropNext(c, docs)
 	}
 	return nil
 }
@@ -1592,4 +1616,200 @@ func (g *apiGen) idxNumKeysNext(c *apiCall, docs bsonkit.List) *apiCall {
 		return c
 	}
 	return nil
+}
+
+// ---- scenario: badfilter (an index build that fails late for another reason than uniqueness) ----
+
+// The partial filter raises an error only for documents with x > 0 (the first condition decides the
+// others): over a collection whose FIRST documents have x ≤ 0 the build adds some documents and then
+// fails; it must leave no trace. Once no stored document has x > 0 the same index can be created,
+// and from then on every write that produces a document with x > 0 fails without a trace.
+func (g *apiGen) idxBadFilterNext(c *apiCall, docs bsonkit.List) *apiCall {
+	r := g.r
+	s := g.idx
+	top := s.key
+	var pos bsonkit.List // the documents the filter errs on
+	for _, d := range docs {
+		if ok, _ := mongokit.Match(d, &bson.D{{Key: "x", Value: bson.D{{Key: "$gt", Value: int32(0)}}}}); ok {
+			pos = append(pos, d)
+		}
+	}
+	has := g.idxHasSecondary(c.DB, c.Coll)
+	mk := func(id interface{}, x int) bson.D {
+		d := bson.D{}
+		if id != nil {
+			d = append(d, bson.E{Key: "_id", Value: id})
+		}
+		d = append(d, bson.E{Key: top, Value: g.idxNum(r.N(4))})
+		if x != -9 {
+			d = append(d, bson.E{Key: "x", Value: g.idxNum(x)})
+		}
+		if r.P(40) {
+			d = append(d, bson.E{Key: "c", Value: g.idxNum(r.N(3))})
+		}
+		return d
+	}
+	switch {
+	case s.phase == 1 && r.P(50):
+		// a healthy index next to the one that will fail
+		c.M = "createIndex"
+		c.Keys = bson.D{{Key: []string{"c", "x"}[r.N(2)], Value: int32(1 - 2*r.N(2))}}
+		return c
+	case s.phase <= 3:
+		// the first documents lie outside (x ≤ 0 or missing), a later one inside
+		c.M, c.Ordered = "insertMany", true
+		c.Docs = []bson.D{mk(g.idxFreshID(docs), -r.N(2)), mk(int32(20+s.phase), []int{-9, 0, -1}[r.N(3)])}
+		if s.phase == 3 || r.P(40) {
+			c.Docs = append(c.Docs, mk(int32(40+s.phase), 1+r.N(2)))
+		}
+		if r.P(30) {
+			c.Docs = append(c.Docs, mk(int32(60+s.phase), -r.N(2)))
+		}
+		return c
+	}
+	k := r.N(100)
+	switch {
+	case k < 25:
+		g.idxCreate(c) // fails late while a document has x > 0; otherwise succeeds
+		if r.P(15) {
+			c.Unique = !c.Unique
+		}
+		return c
+	case k < 32:
+		c.M = "listIndexes"
+		return c
+	case k < 45 && len(pos) > 0:
+		// take a document out of the failing region: delete it, or move x to ≤ 0
+		d := pos[r.N(len(pos))]
+		if r.P(50) {
+			c.M, c.Q = []string{"deleteOne", "findOneAndDelete"}[r.N(2)], idByID(d)
+		} else {
+			set := bson.D{{Key: "x", Value: g.idxNum(-r.N(2))}}
+			g.idxWriteOne(c, d, set, nil, idxRewrite(d, set, nil, true))
+		}
+		return c
+	case k < 62:
+		// inserts on both sides (with the index in place the x > 0 ones fail)
+		c.M, c.Doc = "insertOne", mk(g.idxFreshID(docs), []int{-1, 0, 0, 1, 2, -9}[r.N(6)])
+		if r.P(25) {
+			c.M, c.Ordered = "insertMany", r.P(50)
+			c.Docs = []bson.D{c.Doc, mk(int32(80+s.phase), 1), mk(int32(110+s.phase), 0)}
+			c.Doc = nil
+		}
+		return c
+	case k < 80 && len(docs) > 0:
+		// updates / replacements / upserts that move a document into or within the failing region
+		d := docs[r.N(len(docs))]
+		set := bson.D{{Key: "x", Value: g.idxNum([]int{1, 2, 0, -1}[r.N(4)])}}
+		if r.P(30) {
+			set = append(set, bson.E{Key: top, Value: g.idxNum(r.N(4))})
+		}
+		g.idxWriteOne(c, d, set, nil, idxRewrite(d, set, nil, r.P(50)))
+		if r.P(20) && (c.M == "updateOne" || c.M == "findOneAndUpdate") {
+			c.Q, c.Upsert = bson.D{{Key: "_id", Value: g.idxFreshID(docs)}}, true
+		}
+		return c
+	case k < 86 && len(docs) > 0:
+		c.M, c.Q = "updateMany", bson.D{}
+		c.U = bson.D{{Key: "$inc", Value: bson.D{{Key: "x", Value: int32(1 - 2*r.N(2))}}}}
+		return c
+	case k < 90 && has:
+		sec := g.secondaryIndexNames(c.DB, c.Coll)
+		c.M, c.Name = "dropIndex", sec[r.N(len(sec))]
+		return c
+	}
+	return nil
+}
+
+// ---- scenario: iddrop (the _id index survives every kind of drop) ----
+
+func (g *apiGen) idxIDDropNext(c *apiCall, docs bsonkit.List) *apiCall {
+	r := g.r
+	s := g.idx
+	top := s.key
+	switch {
+	case s.phase == 1:
+		c.M, c.Ordered = "insertMany", true
+		for i := 1; i <= 3; i++ {
+			c.Docs = append(c.Docs, bson.D{{Key: "_id", Value: g.idxNum(i)}, {Key: top, Value: g.idxNum(i)}})
+		}
+		return c
+	case s.phase == 2 || (s.phase%7 == 0):
+		// secondary indexes whose key starts with _id, or is _id in the other direction
+		c.M = "createIndex"
+		c.Keys = []bson.D{
+			{{Key: "_id", Value: int32(1)}, {Key: top, Value: int32(1)}},
+			{{Key: "_id", Value: int32(-1)}},
+			{{Key: "_id", Value: int32(1)}, {Key: top, Value: int32(-1)}, {Key: "c", Value: int32(1)}},
+			{{Key: top, Value: int32(1)}},
+			{{Key: "_id", Value: int32(-1)}, {Key: top, Value: int32(1)}},
+		}[r.N(5)]
+		c.Unique = r.P(40)
+		return c
+	}
+	k := r.N(100)
+	switch {
+	case k < 30:
+		c.M = "dropIndexByKey"
+		c.Keys = []bson.D{
+			{{Key: "_id", Value: int32(1)}}, {{Key: "_id", Value: float64(1)}}, {{Key: "_id", Value: int64(1)}}, {{Key: "_id", Value: int32(-1)}}, {{Key: "_id", Value: float64(-1)}},
+			{{Key: "_id", Value: int32(1)}, {Key: top, Value: int32(1)}}, {{Key: "_id", Value: int32(1)}, {Key: top, Value: int32(-1)}, {Key: "c", Value: int32(1)}},
+			{{Key: "_id", Value: int32(-1)}, {Key: top, Value: int32(1)}}, {{Key: "_id", Value: mustDecimal("1")}}, {{Key: "_id", Value: int32(1)}, {Key: "nope", Value: int32(1)}},
+		}[r.N(10)]
+		return c
+	case k < 42:
+		c.M = "dropIndex"
+		c.Name = []string{"_id_", "_id_", "_id_1", "_id_-1", "_id"}[r.N(5)]
+		if sec := g.secondaryIndexNames(c.DB, c.Coll); len(sec) > 0 && r.P(40) {
+			c.Name = sec[r.N(len(sec))]
+		}
+		return c
+	case k < 50:
+		c.M = "dropAllIndexes"
+		return c
+	case k < 56:
+		c.M = "listIndexes"
+		return c
+	case k < 80:
+		// duplicates of a stored _id (other numeric type) must stay rejected; fresh ones accepted
+		c.M = "insertOne"
+		id := g.idxFreshID(docs)
+		if len(docs) > 0 && r.P(65) {
+			id = idxCopy(bsonkit.Get(docs[r.N(len(docs))], "_id"))
+			if n, ok := id.(int32); ok && r.P(50) {
+				id = []interface{}{float64(n), int64(n)}[r.N(2)]
+			}
+		}
+		c.Doc = bson.D{{Key: "_id", Value: id}, {Key: top, Value: g.idxNum(10 + r.N(20))}}
+		if r.P(20) {
+			c.M, c.Ordered = "insertMany", r.P(50)
+			c.Docs = []bson.D{{{Key: "_id", Value: g.idxFreshID(docs)}, {Key: top, Value: g.idxNum(40 + r.N(20))}}, c.Doc}
+			c.Doc = nil
+		}
+		return c
+	case k < 88 && len(docs) > 0:
+		// upsert / replace onto a stored _id given in another type
+		d := docs[r.N(len(docs))]
+		id := idxCopy(bsonkit.Get(d, "_id"))
+		if n, ok := id.(int32); ok {
+			id = float64(n)
+		}
+		c.M, c.Upsert = []string{"updateOne", "replaceOne"}[r.N(2)], true
+		c.Q = bson.D{{Key: "_id", Value: id}}
+		if c.M == "replaceOne" {
+			c.Repl = bson.D{{Key: top, Value: g.idxNum(60 + r.N(20))}}
+		} else {
+			c.U = bson.D{{Key: "$set", Value: bson.D{{Key: top, Value: g.idxNum(60 + r.N(20))}}}}
+		}
+		return c
+	}
+	return nil
+}
+
+func mustDecimal(s string) primitive.Decimal128 {
+	d, err := primitive.ParseDecimal128(s)
+	if err != nil {
+		panic(err)
+	}
+	return d
 }
